@@ -6,6 +6,9 @@ import JominiModel.Proofs.WriterFlat
 import JominiModel.Spec.WriterNested
 import JominiModel.Proofs.WriterNested
 import JominiModel.Proofs.WriterParse
+import JominiModel.Spec.WriterArrays
+import JominiModel.Proofs.WriterArrays
+import JominiModel.Proofs.TextTapeFaithful3
 /-
 C15 — Well-formed sequences of writer calls parse back to exactly what was written.
 Only property theorems live here; helper lemmas are in `Proofs/Writer.lean`, reference
@@ -366,6 +369,52 @@ example : TextTape.parse (run (ncallsF (.cons (.unq [97]) none
          .endTok 1] false := by
   decide +kernel
 
+/-- `C15_lexemes` for arrays of scalars and empty containers with every start flavour: root
+fields whose values are scalars, non-empty arrays of scalars opened with `write_array_start` or with
+`write_start` (kind unknown until the second element shows it is an array), or empty containers
+opened in any of the three ways.  The bytes: `key<sep>{`, the elements on one line indented one
+level and separated by single spaces, `}` on its own line; an empty container is `{ }` whatever
+call opened it.  For every indent byte and factor. -/
+theorem C15_lexemes_arrays (fs : List AField) (c : UInt8) (f : Nat) :
+    (run (acalls fs) (State.init c f)).1.out = atext c f fs true :=
+  lexemes_arrays fs c f
+
+/-- …and they parse back (writer model → tape parser model, through the text-tape slice's
+fragment-3 theorem) to exactly the described tape: keys, operators, an `Array{end}` … `End` pair
+around the elements of every array, `Array{end}`,`End` for every empty container — in particular
+`write_start` followed by scalars resolves to an array exactly like `write_array_start`, and the
+three ways of opening an empty container are indistinguishable.  Hypotheses: the caller-supplied
+unquoted payloads are scalars of the text format, the indent byte is one the parser treats as
+blank, the text does not begin with the three BOM bytes. -/
+theorem C15_parse_back_arrays (fs : List AField) (c : UInt8) (f : Nat)
+    (hc : TextTape.isBlank c = true) (hv : ∀ x ∈ fs, x.key.Valid ∧ x.val.Valid)
+    (hb : TextTape.hasBom (run (acalls fs) (State.init c f)).1.out = false) :
+    ∃ T, TextTape.parse (run (acalls fs) (State.init c f)).1.out = .ok T false ∧
+      T.map TextTape.Tok.erase = TextTape.ktapeF (acontent fs) 0 := by
+  rw [C15_lexemes_arrays] at hb ⊢
+  have hvalid : TextTape.JValidF (WriterParse.alayout c f fs true) [] := by
+    apply WriterParse.valid_alayout c f hc fs true
+    intro x hx
+    obtain ⟨hk, hval⟩ := hv x hx
+    refine ⟨scall_valid _ hk, ?_, ?_⟩
+    · intro s hs; rw [hs] at hval; exact scall_valid _ hval
+    · intro u a rest hs
+      rw [hs] at hval
+      exact ⟨scall_valid _ hval.1, fun e he => scall_valid _ (hval.2 e he)⟩
+  have hr := WriterParse.jrenderF_alayout c f fs true
+  have := TextTape.faithful_tree (WriterParse.alayout c f fs true) [] .nil hvalid
+    (by rw [List.append_nil, hr]; exact hb)
+  rw [List.append_nil, hr, WriterParse.kcontentF_alayout] at this
+  exact this
+
+/-- `a={ 1 "x" }` via `write_start`, `b={ }` via `write_object_start`, `c < yes` -/
+example : TextTape.parse (run (acalls [⟨.unq [97], none, .arr true (.i64 1) [.quo [120]]⟩,
+      ⟨.unq [98], none, .empty .objectStart⟩, ⟨.unq [99], some .lt, .scal (.bool true)⟩]) (State.init 32 2)).1.out =
+    .ok [.unquoted ⟨27, [97]⟩, .array 4 false, .unquoted ⟨21, [49]⟩, .quoted ⟨18, [120]⟩, .endTok 1,
+         .unquoted ⟨13, [98]⟩, .array 7 false, .endTok 6, .unquoted ⟨7, [99]⟩, .operator .lt,
+         .unquoted ⟨3, [121, 101, 115]⟩] false := by
+  decide +kernel
+
 /-
 Growth theorem, NOT proved in general (full statement kept; `C15_lexemes_partial` is its flat instance):
 
@@ -378,10 +427,11 @@ Growth theorem, NOT proved in general (full statement kept; `C15_lexemes_partial
   hence, with C01's `C01_faithful`, `parse (run cs _).out = tapeOf (docOf cs)`.
 
   Proved so far: flat documents (`C15_lexemes_flat`, `C15_parse_back_flat`) and nested objects
-  to any depth (`C15_lexemes_nested`, `C15_parse_back_nested`).  Missing: arrays
-  (`write_array_start`, and the object/array resolution of `write_start`), empty containers,
-  headers / rgb, the typed scalar calls (integers, dates, booleans: their text is modelled, what
-  is missing is only that it is a valid unquoted scalar) and `write_binary` forwarding.  Until then the clause is decided on the real code: the harness re-parses the
+  to any depth (`C15_lexemes_nested`, `C15_parse_back_nested`), root-level arrays of scalars
+  and empty containers with every start flavour (`C15_lexemes_arrays`, `C15_parse_back_arrays`),
+  the typed scalar calls in every scalar position (`C15_typed_scalars_valid`).  Missing: arrays
+  nested in containers and arrays of containers, objects opened with `write_start` /
+  `write_array_start` + operator, headers / rgb, and `write_binary` forwarding.  Until then the clause is decided on the real code: the harness re-parses the
   output of every well-formed call list with `TextTape::from_slice` and compares it with an
   independent transcription of the described document (oracle kinds `wf-parse-back`,
   `wf-output-does-not-parse`, `wf-state`).
